@@ -440,7 +440,10 @@ fn build(rng: &mut Rng, case: usize, with_malformed: bool) -> Built {
     // 0 push 1000 msat, 1 push 5e6 msat, 2 inbound, 3 initial commitment missing, 4 past the initial commitment,
     // 5 value + 1, 6 value - 1, 7 wrong script, 8 one flag flipped, 9 an unknown output, 10 a wallet path with
     // another key's script, 11 a p2pkh input
-    let defect: Option<u64> = if style == 1 { Some(rng.below(12)) } else { None };
+    // 12 one segwit flag missing
+    let defect: Option<u64> = if style == 1 { Some(rng.below(13)) } else { None };
+    // the defect together with an output to nowhere: whether an approval can wash the defect away
+    let also_unknown = style == 1 && defect != Some(9) && rng.chance(2, 5);
     let pol = gen_policy(rng, clean);
     let mut seed = [0u8; 32];
     seed[0] = (case % 251) as u8;
@@ -472,7 +475,7 @@ fn build(rng: &mut Rng, case: usize, with_malformed: bool) -> Built {
         7..=8 => 2,
         _ => 3,
     };
-    if matches!(defect, Some(0..=8) | Some(11)) && n_ch == 0 {
+    if matches!(defect, Some(0..=8) | Some(11) | Some(12)) && n_ch == 0 {
         n_ch = 1;
     }
     struct ChPlan {
@@ -627,7 +630,7 @@ fn build(rng: &mut Rng, case: usize, with_malformed: bool) -> Built {
         };
         drafts.push(d);
     }
-    if defect == Some(9) {
+    if defect == Some(9) || also_unknown {
         let s = refw.script_of(&refw.wallet_key(&path_of(&[10_777])), 0);
         // value boundaries too: an output of 0 or 1 sat to nowhere still needs approval
         let value = match rng.below(6) {
@@ -705,6 +708,11 @@ fn build(rng: &mut Rng, case: usize, with_malformed: bool) -> Built {
         });
         ins.push(InSpec { kind, value: 0, script, spend_valid, ipath: if spend_valid && uck.is_none() { p } else { path_of(&[]) }, signable });
         ucks.push(uck);
+    }
+
+    if defect == Some(12) {
+        malformed.push("segwit_flags shorter than the inputs");
+        flags.pop();
     }
 
     // ---- malformed shapes
@@ -958,6 +966,9 @@ fn reference_violations(
     version_two: bool,
     base_size: u128,
     nbv_reported: Option<u64>,
+    // the verdict rests on an explicit approval of the unknown destinations: that waives the unknown
+    // outputs themselves and the accounting of what leaves (inputs, fee rate), nothing else
+    approved_unknown: bool,
 ) -> Vec<String> {
     let mut v: Vec<(String, &str)> = vec![];
     let sin: u128 = values.iter().map(|x| *x as u128).sum();
@@ -979,7 +990,7 @@ fn reference_violations(
                 }
             }
             Some(_) => {
-                if is_unknown(o) {
+                if is_unknown(o) && !approved_unknown {
                     v.push((format!("output[{}] goes to an unknown destination", i), ""));
                 }
                 if funds_channel(o) {
@@ -1013,13 +1024,14 @@ fn reference_violations(
             v.push(("a channel is funded with a non-segwit input".into(), TAGS[2]));
         }
     }
-    if sin > U64MAX as u128 {
-        v.push(("sum of the inputs above u64".into(), ""));
-    }
     if sc > U64MAX as u128 {
         v.push(("sum of the beneficial outputs above u64".into(), ""));
     }
-    if sc > sin {
+    if approved_unknown {
+        // what goes to the approved destinations is the approver's business
+    } else if sin > U64MAX as u128 {
+        v.push(("sum of the inputs above u64".into(), ""));
+    } else if sc > sin {
         v.push(("beneficial outputs exceed the inputs".into(), ""));
     } else {
         let nbv = sin - sc;
@@ -1162,7 +1174,7 @@ fn node_step(b: &Built, node: &Arc<Node>, values: &[u64], now: u64, answer: bool
         match w {
             None => monitor.push(format!("{}: accepted although uniclosekeys outruns prev_outs", which)),
             Some(w) => {
-                for m in reference_violations(&b.pol, &b.outs, values, &b.flags, b.tx.input.len(), w, b.tx.version == Version::TWO, b.tx.base_size() as u128, None) {
+                for m in reference_violations(&b.pol, &b.outs, values, &b.flags, b.tx.input.len(), w, b.tx.version == Version::TWO, b.tx.base_size() as u128, None, false) {
                     monitor.push(format!("{}: accepted although {}", which, m));
                 }
             }
@@ -1196,6 +1208,17 @@ fn node_step(b: &Built, node: &Arc<Node>, values: &[u64], now: u64, answer: bool
                 }
                 if !answer {
                     monitor.push("approved although the approver said no".into());
+                }
+                // the final verdict: signable on the approver's word.  Everything the approval cannot waive
+                // must hold for it: format, size, segwit inputs when a channel is funded, every other output
+                // returned / allowlisted / into a validated channel, no overflow of what is counted
+                match w {
+                    None => monitor.push("handle_proposed_onchain: approved although uniclosekeys outruns prev_outs".into()),
+                    Some(w) => {
+                        for m in reference_violations(&b.pol, &b.outs, values, &b.flags, b.tx.input.len(), w, b.tx.version == Version::TWO, b.tx.base_size() as u128, None, true) {
+                            monitor.push(format!("handle_proposed_onchain: signable after approval of the unknown outputs {:?} although {}", ix, m));
+                        }
+                    }
                 }
             }
         }
@@ -1382,7 +1405,7 @@ fn node_domain(args: &Args) {
                 };
             }
             let values = choose_input_values(&mut rng, b.ins.len(), sc, w, &b.pol);
-            let answer = rng.chance(1, 2);
+            let answer = rng.chance(3, 5);
             let st = node_step(&b, &node, &values, now, answer, &mut log, &mut stats);
             stats.steps += 1;
             *stats.check_codes.entry(st.check_code).or_insert(0) += 1;
@@ -1483,7 +1506,7 @@ fn val_domain(args: &Args) {
         let mut monitor: Vec<String> = vec![];
         let unknown_ref: Vec<u64> = b.outs.iter().enumerate().filter(|(_, o)| is_unknown(o)).map(|(i, _)| i as u64).collect();
         if code == 0 {
-            for m in reference_violations(&b.pol, &b.outs, &values, &b.flags, b.tx.input.len(), w, b.tx.version == Version::TWO, b.tx.base_size() as u128, Some(nbv)) {
+            for m in reference_violations(&b.pol, &b.outs, &values, &b.flags, b.tx.input.len(), w, b.tx.version == Version::TWO, b.tx.base_size() as u128, Some(nbv), false) {
                 monitor.push(format!("validate_onchain_tx accepted although {}", m));
             }
         }
